@@ -217,6 +217,20 @@ func (set *TemplateSet) FromBytes(tpl []byte) (*Template, error) {
 func (set *TemplateSet) FromFile(filename string) (*Template, error) {
 	atomic.StoreUint32(&set.firstTemplateCreated, 1)
 
+	return set.fromFile(filename, 0)
+}
+
+// fromFile loads a template on behalf of another one that is being compiled at the
+// given nesting depth (include, extends, import, ssi).
+func (set *TemplateSet) fromFile(filename string, depth int) (*Template, error) {
+	if depth > maxTemplateDepth {
+		return nil, &Error{
+			Filename:  filename,
+			Sender:    "fromfile",
+			OrigError: fmt.Errorf("maximum template nesting depth reached (max is %d): templates referring to each other in a cycle?", maxTemplateDepth),
+		}
+	}
+
 	_, _, fd, err := set.resolveTemplate(nil, filename)
 	if err != nil {
 		return nil, &Error{
@@ -234,7 +248,7 @@ func (set *TemplateSet) FromFile(filename string) (*Template, error) {
 		}
 	}
 
-	return newTemplate(set, filename, false, buf)
+	return newTemplate(set, filename, false, buf, depth)
 }
 
 // RenderTemplateString is a shortcut and renders a template string directly.
